@@ -136,6 +136,23 @@ func (e *Env) bindArgs(ex *Exec, fn *ssa.Function, ct *Contract) (args []Val, ev
 			ev.vars[n] = tval{v, nil}
 			ex.TopForalls = append(ex.TopForalls, v)
 		}
+		for _, ie := range ct.Instances {
+			// an instance that does not exist on this path (an index beyond a short list) is skipped
+			func() {
+				defer func() {
+					if r := recover(); r != nil {
+						if _, isAbort := r.(abortErr); !isAbort {
+							if _, isPanic := r.(panicOut); !isPanic {
+								panic(r)
+							}
+						}
+					}
+				}()
+				if t, ok := ev.eval(ie).V.(*smt.Term); ok {
+					ex.TopForalls = append(ex.TopForalls, t)
+				}
+			}()
+		}
 	}
 	return
 }
@@ -362,6 +379,9 @@ func parseModifies(items []string) ([]modItem, error) {
 			out = append(out, modItem{Kind: "world"})
 		case it == "bank":
 			out = append(out, modItem{Kind: "bank"})
+		case it == "bank-balances":
+			// transfers between any accounts; no mint, no burn
+			out = append(out, modItem{Kind: "bankbal"})
 		case strings.HasPrefix(it, "bank["):
 			e, err := parser.ParseExpr(strings.TrimSuffix(strings.TrimPrefix(it, "bank["), "]"))
 			if err != nil {
@@ -475,6 +495,11 @@ func (e *Env) frameObligations(ex *Exec, fn *ssa.Function, ct *Contract, ev *eva
 			switch m.Kind {
 			case "bank":
 				goal = smt.Or(goal, condOf(m))
+			case "bankbal":
+				// covers every operation that leaves the supplies alone
+				if !op.Supply && !(op.Havoc && op.All && !op.KeepSupply) {
+					goal = smt.Or(goal, condOf(m))
+				}
 			case "bankaddr":
 				if op.Addr != nil && !op.All {
 					goal = smt.Or(goal, smt.And(condOf(m), smt.Eq(op.Addr, ex.term(ev.eval(m.Expr).V))))
@@ -621,6 +646,10 @@ func (ex *Exec) applyContractSig(fr *frame, calleeKey string, pkg *types.Package
 		case "bank":
 			if w != nil {
 				ex.bankHavocAll(w)
+			}
+		case "bankbal":
+			if w != nil {
+				ex.bankHavocBalances(w)
 			}
 		case "table":
 			if w != nil {
@@ -815,6 +844,7 @@ func (e *Env) heapFrame(ex *Exec, fn *ssa.Function, ct *Contract, ev *evalEnv, a
 			if covered(pv.C, path) {
 				return
 			}
+			cur, was = ex.force(cur), ex.force(was)
 			cs, ok1 := cur.(*StructV)
 			ws, ok2 := was.(*StructV)
 			if ok1 && ok2 && len(cs.F) == len(ws.F) {
